@@ -209,7 +209,43 @@ def _lost_process(core, ids):
     adapter.set_rules(fapp.processes['todo'].rules, start_sequence=1)
 
 
+@rigged
+def convergence(src, n=2, faults=1, delays=0, rounds=6, closing=10, configs=('LIST+TIMEOUT', 'CORE'),
+                fences=(False, True)):
+    """H01f: n real instances under a solver-chosen fault (crash, restart - also before detection -, partition, heal,
+    process activity) and held tasks; at quiescence every group of live, mutually reachable, non-isolated instances
+    reports one Master, which is one of them, seen RUNNING by all, regarding itself as the Master; every automatic
+    request was emitted by an instance that regarded itself as the Master"""
+    from harness import cluster_common as CC
+    cl, cfg, plan, senders, traces = CC.run_schedule(src, n=n, rounds=rounds, closing=closing, faults=faults,
+                                                     delays=delays, configs=configs, fences=fences)
+    sig = '+'.join(k[0] for _, _, k in plan) or 'none'
+    for g in CC.groups(cl):
+        ids = [c.ident for c in g]
+        masters = {c.ident: c.rpc_intf.get_master_identifier() for c in g}
+        names = {m['identifier'] for m in masters.values()}
+        src.check('one-master-per-group', len(names) == 1 and '' not in names, sig=sig, masters=masters,
+                  states={c.ident: c.fsm.state.name for c in g})
+        m = list(names)[0]
+        src.check('master-is-a-member', m in ids, sig=sig, master=m, group=ids)
+        for c in g:
+            src.check('master-seen-running', c.context.instances[m].state.name == 'RUNNING', sig=sig, by=c.ident,
+                      sees={i: s.state.name for i, s in c.context.instances.items()})
+        mc = next(c for c in g if c.ident == m)
+        src.check('master-knows-it-is', mc.state_modes.is_master(), sig=sig)
+    for who, name, ns, was_master, state in senders:
+        src.check('automatic-request-only-from-a-master', was_master, sig=name, sender=who, namespec=ns, state=state)
+    src.check('no-internal-error', not cl.criticals(), sig=sig, log=cl.criticals()[:1])
+    src.reach('quiescent')
+    src.obs('masters', {c.ident: c.state_modes.master_identifier for c in cl.live()})
+
+
 HARNESSES = [
+    Harness('H01f', convergence, quick={'n': 2, 'faults': 1, 'delays': 0},
+            thorough={'n': 3, 'faults': 2, 'delays': 0}, reach=('quiescent',), timeout=(150, 1800),
+            doc='cluster convergence on one running Master after a solver-chosen fault'),
+    Harness('H01f-delays', convergence, quick=None, thorough={'n': 2, 'faults': 1, 'delays': 1},
+            reach=('quiescent',), timeout=(0, 1800), doc='same with one held task'),
     Harness('H01a', rule, quick={'n': 3}, thorough={'n': 4}, reach=('selected', 'single-recognised'),
             timeout=(120, 1500), doc='real select_master vs the documented selection rule'),
     Harness('H01b', agreement, quick={'n': 2}, thorough={'n': 3}, reach=('compared',), timeout=(90, 900),
@@ -222,8 +258,8 @@ HARNESSES = [
             timeout=(120, 900), doc='only the Master emits automatic requests'),
 ]
 BOUNDS = {'quick': {'rule_instances': 3, 'step_instances': 2}, 'thorough': {'rule_instances': 4, 'step_instances': 3}}
-OUTSIDE = ['N > 4 for the rule, N > 3 for the steps', 'discovery mode', 'convergence over real multi-instance '
-           'histories is decided by the cluster harness when listed; otherwise outside this claim']
+OUTSIDE = ['N > 4 for the rule, N > 3 for the steps and the cluster', 'discovery mode',
+           'more than 2 faults / 1 held task in cluster histories', 'non-atomic handshakes, clock skew between threads']
 ASSUMPTIONS = ['among several core candidates the lowest nick identifier is expected (the statement only says "a '
                'core_identifiers member"; agreement between instances is checked separately)',
                'pre-state invariant of harness/fsm_common.py']
